@@ -102,6 +102,23 @@ def opRindex (k : Kind) (size : Int) (n : Int) : R :=
 /-- the byte store of F_VOID_ASSIGN through a T_LVALUE_BYTE -/
 def byteStoreOk (v : Int) : Bool := decide (v % 256 ≠ 0)
 
+/-- second half of push_indexed_lvalue + F_VOID_ASSIGN once `ind` is computed: the guard and the store -/
+def lindexCore (k : Kind) (onStack : Bool) (size ind v : Int) : R :=
+  match k with
+  | .str =>
+    if guard_lindex_str ind size then .error (.lpc msg_lindex_str)
+    else if !byteStoreOk v then .error (.lpc "*Strings cannot contain 0 bytes.")
+    else .ok ⟨[wr .owner ind 1], .stored ind (v % 256)⟩
+  | .buf =>
+    if (if onStack then guard_sindex_buf ind size else guard_lindex_buf ind size) then
+      .error (.lpc (if onStack then msg_sindex_buf else msg_lindex_buf))
+    else if !byteStoreOk v then .error (.lpc "*Strings cannot contain 0 bytes.")
+    else .ok ⟨[wr .owner ind 1], .stored ind (v % 256)⟩
+  | .arr =>
+    if (if onStack then guard_sindex_arr ind size else guard_lindex_arr ind size) then
+      .error (.lpc (if onStack then msg_sindex_arr else msg_lindex_arr))
+    else .ok ⟨[wr .owner ind 1], .stored ind v⟩
+
 /-- push_indexed_lvalue(reverse) followed by F_VOID_ASSIGN of the number `v`.
     `onStack` = the second half of the C function: the indexed value is on the stack, not an lvalue. -/
 def opLindex (k : Kind) (reverse onStack : Bool) (size : Int) (n v : Int) : R :=
@@ -110,23 +127,14 @@ def opLindex (k : Kind) (reverse onStack : Bool) (size : Int) (n v : Int) : R :=
     if onStack then .error (.lpc "*Illegal to make char lvalue from assigned string.")
     else
       -- ind = len - ind : size_t arithmetic, converted to int64_t
-      let ind := if reverse then trunc64 (truncU64 (size - n)) else n
-      if guard_lindex_str ind size then .error (.lpc msg_lindex_str)
-      else if !byteStoreOk v then .error (.lpc "*Strings cannot contain 0 bytes.")
-      else .ok ⟨[wr .owner ind 1], .stored ind (v % 256)⟩
+      lindexCore .str onStack size (if reverse then trunc64 (truncU64 (size - n)) else n) v
   | .buf =>
-    let ind := if reverse then size - n else n      -- int64_t arithmetic
-    if !inS64 ind then .error (.ub (if onStack then "sindex_buf" else "lindex_buf"))
-    else if (if onStack then guard_sindex_buf ind size else guard_lindex_buf ind size) then
-      .error (.lpc (if onStack then msg_sindex_buf else msg_lindex_buf))
-    else if !byteStoreOk v then .error (.lpc "*Strings cannot contain 0 bytes.")
-    else .ok ⟨[wr .owner ind 1], .stored ind (v % 256)⟩
+    -- ind = size - ind : int64_t arithmetic
+    if !inS64 (if reverse then size - n else n) then .error (.ub (if onStack then "sindex_buf" else "lindex_buf"))
+    else lindexCore .buf onStack size (if reverse then size - n else n) v
   | .arr =>
-    let ind := if reverse then size - n else n
-    if !inS64 ind then .error (.ub (if onStack then "sindex_arr" else "lindex_arr"))
-    else if (if onStack then guard_sindex_arr ind size else guard_lindex_arr ind size) then
-      .error (.lpc (if onStack then msg_sindex_arr else msg_lindex_arr))
-    else .ok ⟨[wr .owner ind 1], .stored ind v⟩
+    if !inS64 (if reverse then size - n else n) then .error (.ub (if onStack then "sindex_arr" else "lindex_arr"))
+    else lindexCore .arr onStack size (if reverse then size - n else n) v
 
 /-- slice_array (p, from, to) for an array of `size` elements -/
 def sliceArray (size : Int) (from0 to0 : Int) : Out :=
